@@ -86,6 +86,10 @@ func (k *KittyImage) Draw(win Window) {
 	if atomicLoad(&k.encoding) {
 		return
 	}
+	w, h := win.Size()
+	if k.w > w || k.h > h {
+		return
+	}
 	col, row := win.Origin()
 	log.Trace("placing kitty image at cell %d,%d", col, row)
 	// the pid is a 32 bit number where the high 16bits are the width and
